@@ -38,6 +38,7 @@ type result struct {
 
 var res = result{Extra: map[string]any{}}
 var seenKeys = map[string]bool{}
+var deadlineClasses = map[string]bool{} // classes of cells in which a cell waited the full deadline in vain
 
 func violate(key, msg string, replay any) {
 	if seenKeys[key] {
@@ -390,6 +391,12 @@ func runCell(p *pair, c cell, sh shape) {
 	if seenKeys[key("connection died instead of delivering an event within the announced limit")] {
 		return // this class of cells already has its verdict; do not kill one connection after the other
 	}
+	if deadlineClasses[key("deadline")] {
+		// a cell of this class (transport, direction, size class, recovery) already waited the full deadline in
+		// vain: on a tree that silently drops such events every further cell would wait another minute
+		res.Caps = append(res.Caps, "not run (an earlier cell of its class hit the deadline): "+where)
+		return
+	}
 	for i, t := range targets {
 		isDown := func() bool {
 			p.mu.Lock()
@@ -413,6 +420,7 @@ func runCell(p *pair, c cell, sh shape) {
 				return
 			}
 			res.Caps = append(res.Caps, "deadline waiting for delivery: "+where)
+			deadlineClasses[key("deadline")] = true
 			p.dead = true
 			return
 		}
